@@ -31,3 +31,22 @@ def nb_roundtrip(d: "bytes", o: "int", e: "bytes", r: "bytes"):
     """decode(encode(d, o), o) == d for every byte string and offset for which encode returns."""
     requires(nb_enc_post(d, o, e), nb_dec_post(e, o, r))
     ensures(r == d)
+
+
+@lemma(props=["C20"])
+def seqsum_nonneg(s: "ilist"):
+    """A sum of non-negative numbers is zero exactly when every summand is zero."""
+    requires(forall(lambda i: s[i] >= 0, 0, len(s)))
+    ensures(seqsum(s) >= 0)
+    ensures(implies(seqsum(s) == 0, forall(lambda i: s[i] == 0, 0, len(s))))
+    ensures(implies(forall(lambda i: s[i] == 0, 0, len(s)), seqsum(s) == 0))
+    decreases(len(s))
+    if len(s) > 0:
+        seqsum_nonneg(s[:-1])
+
+
+@contract("dissect.cobaltstrike.utils:xor", props=["C20", "C04", "C01", "C09", "C15", "C17"])
+def _(data: "bytes", key: "bytes"):
+    ensures(xor_post(data, key, result))
+    returns("bytes")
+    ghost(entry=True, do=[seqsum_nonneg(key)])
